@@ -11,6 +11,7 @@ import (
 	"github.com/zishang520/engine.io/v2/types"
 	"github.com/zishang520/engine.io/v2/utils"
 	"verifrt/vsched"
+	"verifrt/vtime"
 )
 
 // C20, concurrent half (E1): 2-3 threads with 1-2 operations each on one shared
@@ -529,6 +530,45 @@ func init() {
 					})
 				}
 			}
+		}
+		// the wall clock moves while a caller is between reading it and the rest of the call (a harness
+		// thread moves it as one of its scheduled steps)
+		for _, threads := range Pick(c, []int{2}, []int{2, 3}) {
+			threads := threads
+			id := fmt.Sprintf("yeast: %d threads x 2 calls, the clock moves by 1ms at any point", threads)
+			n++
+			c.Explore(id, Pick(c, 2, 3), func(x *vsched.Exec) {
+				vtime.ResetWallSkew()
+				defer vtime.ResetWallSkew()
+				y := utils.NewYeast()
+				var got []string
+				done := 0
+				for t := 0; t < threads; t++ {
+					vsched.GoNamed(fmt.Sprintf("y%d", t), func() {
+						for i := 0; i < 2; i++ {
+							got = append(got, y.Yeast())
+						}
+						done++
+					})
+				}
+				vsched.GoNamed("clock", func() {
+					vsched.Yield("clock-tick")
+					vtime.AddWallSkew(time.Millisecond)
+				})
+				x.Run(time.Second)
+				if done != threads {
+					x.Fail("deadlock[yeast]: threads blocked: %v", x.Blocked())
+				}
+				seen := map[string]bool{}
+				for _, g := range got {
+					if seen[g] {
+						x.Fail("duplicate-id[yeast concurrent clock-moves]: Yeast() returned an id twice; %d values, %d distinct (%s)", len(got), len(seen), id)
+						break
+					}
+					seen[g] = true
+				}
+				x.Outcome = fmt.Sprint(len(seen))
+			})
 		}
 		// sequential: many calls within one millisecond and across boundaries
 		c.Once("yeast: sequential 200 calls", func(x *vsched.Exec) {
